@@ -62,6 +62,7 @@ func main() {
 			fmt.Fprintln(os.Stderr, "unknown property", sub)
 			os.Exit(2)
 		}
+		otherUses() // the process has used every entry point before the suite starts
 		rep = fn(ctx)
 	}
 	res := map[string]any{
